@@ -9,7 +9,7 @@ import (
 func init() {
 	register(&Rule{
 		Name:     "JSONSTRRAW",
-		Doc:      "in the binary->JSON converters a string or byte slice read from the message (result of BinaryProtocol.ReadString*/ReadBinary/ReadBytes of either protocol) never reaches the JSON output through a raw append(out, s...): it must pass json.EncodeString / NoQuote / EncodeBaniry, which escape quotes, backslashes and control characters (map keys included)",
+		Doc:      "in the binary->JSON converters a string or byte slice read from the message (result of BinaryProtocol.ReadString*/ReadBinary/ReadBytes of either protocol) never reaches the JSON output through a raw append(out, s...): it must pass json.EncodeString / NoQuote / EncodeBaniry, which escape quotes, backslashes and control characters (map keys included); the one verbatim splice the library wants (agw.body_dynamic: the string IS a JSON document) is accepted only on the true edge of encoding/json.Valid of that string",
 		Configs:  "NP",
 		Floor:    map[string]int{"N": 8, "P": 8},
 		Controls: 1,
@@ -75,6 +75,21 @@ func runJSONStrRaw(rc *RuleCtx) {
 				if bi, ok := c.Call.Value.(*ssa.Builtin); ok && bi.Name() == "append" && len(c.Call.Args) == 2 {
 					rc.Examined++
 					if wireString(c.Call.Args[1], 0) {
+						// a wire string that was found to BE a JSON document (encoding/json.Valid, true edge) may be
+						// spliced in verbatim: that is what agw.body_dynamic asks for
+						validated := false
+						for _, cd := range controllingIfs(b) {
+							k, neg := condKey(cd.cond)
+							if vc, ok := k.(*ssa.Call); ok && vc.Call.StaticCallee() != nil && vc.Call.StaticCallee().Name() == "Valid" &&
+								vc.Call.StaticCallee().Pkg != nil && vc.Call.StaticCallee().Pkg.Pkg.Path() == "encoding/json" &&
+								len(vc.Call.Args) == 1 && wireString(vc.Call.Args[0], 0) && cd.val != neg {
+								validated = true
+							}
+						}
+						if validated {
+							rc.ok(fn, "append(out, wire-string...)", c.Pos(), "the string is spliced in only after encoding/json.Valid accepted it", true)
+							continue
+						}
 						rc.bad(fn, "append(out, wire-string...)", c.Pos(), "a string read from the message is appended to the JSON output without escaping (quotes, backslashes, control characters would break the document)")
 					}
 					continue
